@@ -23,7 +23,7 @@ TOGGLES = [
     "alias_scalars", "component_parameters", "component_bodies", "component_responses", "path_item_parameters",
     "same_name_two_locations", "multi_body", "multipart", "form", "octet", "text_responses", "plus_json",
     "no_content", "security", "tags", "defaults", "descriptions", "query_arrays", "header_params",
-    "cookie_params", "shared_paths", "inline_response_objects", "shuffle_decl", "media_type_params", "item_level_name_clash", "multi_media_responses", "wrapped_refs", "rich_form_fields", "reserved_param_names", "python_name_clash", "noise_responses", "trailing_slash_paths", "prefix_names", "inline_in_aliases", "inline_allof", "shared_body_models", "decorations", "shared_components", "no_operation_id", "long_paths", "coinciding_enums", "http_header_names", "titles", "embedded_placeholders", "root_security",
+    "cookie_params", "shared_paths", "inline_response_objects", "shuffle_decl", "media_type_params", "item_level_name_clash", "multi_media_responses", "wrapped_refs", "rich_form_fields", "reserved_param_names", "python_name_clash", "noise_responses", "trailing_slash_paths", "prefix_names", "inline_in_aliases", "inline_allof", "shared_body_models", "decorations", "shared_components", "no_operation_id", "long_paths", "coinciding_enums", "http_header_names", "titles", "embedded_placeholders", "root_security", "array_in_unions",
 ]
 
 PROP_VOCAB = [
@@ -206,6 +206,11 @@ class DocGen:
             members = [self.ref(r.choice(models)), scalar_schema(r.choice(["string", "integer"]))]
         else:
             members = [{"type": "string"}, {"type": "integer"}]
+        if self.on("array_in_unions") and r.random() < 0.5:
+            # one array-typed member, at a random position: its type guard is all that keeps a mapping / string / number
+            # reply for a LATER member out of `cast(list[...], data)` or an element loop
+            arr = {"type": "array", "items": self.ref(r.choice(models)) if models and r.random() < 0.5 else scalar_schema(r.choice(["string", "integer", "uuid"]))}
+            members.insert(r.randrange(len(members) + 1), arr)
         if self.on("nullable") and self.v31 and r.random() < 0.3:
             members.append({"type": "null"})
         key = r.choice(["oneOf", "anyOf"])
